@@ -42,6 +42,11 @@ def special_programs():
     out.append(hdr + "Vai Ai i1 ] ;")
     out.append(hdr + "Va{sv} A{sv} { s61 Vv Vs s62 ; ; } ] ;")
     out.append(hdr + " ".join("Vv" for _ in range(30)) + " Vy y7 ; " + " ".join(";" for _ in range(30)))
+    # one-byte signature lengths with the top bit set: variants holding structs of 118..253 members, signature values of 120..255 bytes
+    for k in (118, 125, 126, 127, 128, 200, 253):
+        ssig = "(" + "y" * k + ")"
+        out.append(hdr + "y7 V%s ( %s ) ; y9" % (ssig, " ".join("y%d" % (i % 256) for i in range(k))))
+        out.append(hdr + "g" + "79" * (k + 2) + " s6162")
     out.append(hdr + "A(yx) ( y1 x2 ) ( y3 x4 ) ]")
     out.append(hdr + " ".join("i%d" % i for i in range(200)))
     for k in (1, 8, 31, 32):
